@@ -6,8 +6,12 @@
 //!   abasic-sim replay <replay.json>                  reproduce a recorded violation
 //!   abasic-sim logs   <ID> <seed> <from> <count>     canonical per-run log hashes (determinism self-test)
 
+mod ast;
 mod engine;
+mod gen;
 mod hostile;
+mod lockstep;
+mod model;
 mod prng;
 mod props;
 mod sess;
@@ -20,6 +24,10 @@ macro_rules! dispatch {
         match $id {
             "C01" => {
                 type $p = props::c01::C01;
+                $body
+            }
+            "C03" => {
+                type $p = props::c03::C03;
                 $body
             }
             other => {
